@@ -13,10 +13,14 @@ def run(ver):
                         "CrossShape PrefixNeverOK PrefixEOI")
         core.replay_cases(ver, binp, res["out_path"], wd, tag)
     core.validate_traces(ver, binp, "c04", "Trace_C04", wd, gen_args=["6000"])
+    # the ~110 target types: re-framed encodings of their values (the typed events shared with C01, conjunct "alt"), the encoding of every
+    # value decoded as every other type (an error, or the same data item: "cross"), strict prefixes decoded as the type itself ("prefix")
+    core.validate_traces(ver, binp, "c01", "Trace_Typed", wd, stage="trace_types", gen_args=["500"], only_why={"alt"})
+    core.validate_traces(ver, binp, "c04x", "Trace_Typed", wd, stage="trace_cross", gen_args=["500"], only_why={"cross", "prefix"})
     ver.assumptions += ["TLC evaluates the TLA+ operators correctly",
                         "simple() answering (or not) for false/true/null/undefined is left open; f8 00..1f is not well-formed and only totality is demanded",
                         "a cut inside a text string is an end-of-input case only while the bytes so far can still become valid UTF-8",
-                        "composite target types (Vec, tuples, maps, ...) are decided by the C01 check's re-framing events"]
+                        "for target types whose acceptance is lossy by design (sets, maps, f64 reading narrower floats, durations, a bare Tag) a cross-type decode is only required to return"]
     return ver.finish("model_checking",
                       "MC: two spec-level definitions (accessor semantics, data-model tree decoding) agree on every well-formed input of the model, no accessor "
                       "succeeds across shapes, prefixes never succeed and report end-of-input where a completion would be accepted; S->I: every (prefix of a group "
